@@ -1248,9 +1248,14 @@ func runVMValuesParts(c *Ctx, r *Reporter, fresh, rest bool) {
 	}
 	// (1b) repetition: elements appended inside a loop are deep copies, never the operand's own elements
 	if fd := FindFunc(pkg, "(*VM).Run"); fd != nil {
-		sf := p.SSAFunc(fd.Obj)
+		run := p.SSAFunc(fd.Obj)
 		n := 0
-		for _, b := range sf.Blocks {
+		var rblocks []*ssa.BasicBlock
+		for _, h := range regionFns(run, 2, map[string]bool{"deepCopy": true, "push": true, "pop": true}) {
+			rblocks = append(rblocks, h.Blocks...) // the repetition may live in a helper of Run (repeatArray)
+		}
+		for _, b := range rblocks {
+			sf := b.Parent()
 			for _, ins := range b.Instrs {
 				call, ok := ins.(*ssa.Call)
 				if !ok {
@@ -1260,12 +1265,12 @@ func runVMValuesParts(c *Ctx, r *Reporter, fresh, rest bool) {
 				if !ok || bi.Name() != "append" || len(call.Call.Args) != 2 {
 					continue
 				}
-				// inside a loop of its own (nested in the instruction dispatch loop)
+				// inside a loop of its own (in Run: nested in the instruction dispatch loop)
 				h := loopHeaderOf(b)
 				if h == nil {
 					continue
 				}
-				nested := false
+				nested := sf != run
 				for _, h2 := range sf.Blocks {
 					if h2 != h {
 						if body := naturalLoop(h2); body != nil && body[h] {
